@@ -18,6 +18,13 @@ def fsqrt(fr):
         else float(Fraction(math.isqrt(fr.numerator * 2 ** 200 // fr.denominator), 2 ** 100))
 
 
+def _safe_float(x):
+    try:
+        return float(x)
+    except OverflowError:
+        return math.inf if x > 0 else -math.inf
+
+
 class ExactTally:
     """power sums as exact rationals; all documented statistics derived from them"""
 
@@ -55,6 +62,18 @@ class ExactTally:
         m3 = self.s3 - 3 * mu * self.s2 + 3 * mu * mu * self.s1 - n * mu ** 3
         m4 = self.s4 - 4 * mu * self.s3 + 6 * mu * mu * self.s2 - 4 * mu ** 3 * self.s1 + n * mu ** 4
         return mu, m2, m3, m4
+
+    def expected_first_order(self, alphas):
+        """n, min, max, sum, mean with tolerances; every other getter 'totality only' (values so far apart that the higher
+        moments leave the float range)"""
+        n = self.n
+        out = {"n": (n, 0), "min": (self.min, 0), "max": (self.max, 0), "sum": (_safe_float(self.s1), 4 * max(n, 1) * EPS * self.sumabs)}
+        for k in ["variance_b", "variance_u", "stdev_b", "stdev_u", "skewness_b", "skewness_u", "kurtosis_b", "kurtosis_u", "excess_b", "excess_u"]:
+            out[k] = (math.nan, "any")
+        for a in alphas:
+            out[f"ci_{a}"] = ((math.nan, math.nan), "any")
+        out["mean"] = (_safe_float(self.s1 / n), 64 * n * EPS * self.maxabs) if n else (math.nan, 0)
+        return out
 
     def expected(self, alphas):
         """dict getter -> (value, abs_tolerance or None when only totality is judged)"""
@@ -96,7 +115,6 @@ class ExactTally:
             put("variance_u", float(varu), rel2)
             put("stdev_u", fsqrt(varu), rel2)
             if m2 != 0:
-                skb = float(m3 / n) / (float(varb) ** 1.5) if float(varb) > 0 else nan
                 # exact: skew = (m3/n) / varb^(3/2)
                 skb = float(Fraction(m3, n) / varb) / sig if sig > 0 else nan
                 put("skewness_b", skb, rel4, rel4)
@@ -191,10 +209,10 @@ class ExactWeighted:
 
 def close(got, want, tol):
     """NaN-aware closeness; tol None = only 'is a float' is judged; tol 'any' = float or NaN"""
-    if tol == "any":
-        return isinstance(got, (int, float))
     if isinstance(want, tuple):
         return isinstance(got, tuple) and len(got) == len(want) and all(close(g, w, tol) for g, w in zip(got, want))
+    if tol == "any":
+        return isinstance(got, (int, float))
     if not isinstance(got, (int, float)) or isinstance(got, bool):
         return False
     if want != want:
